@@ -5,35 +5,9 @@ any length and any content.
 -/
 import Mctp.Lemmas.Bitfield
 import Mctp.Model.Views
+import Mctp.Spec.Layout
 namespace Mctp
 namespace C18
-
-/-- wire position of a field that lives inside one byte: byte index, lowest bit (bit 0 = least
-significant bit of the byte), width in bits -/
-structure Layout where
-  byte : Nat
-  lo : Nat
-  width : Nat
-  deriving DecidableEq, Repr
-
-/-- the layouts of DSP0237 (SMBus header, routing entry) and DSP0236 (transport header, message
-body header, control message header), as the library documents them -/
-def table : List (Field × Layout) :=
-  [ (SMBusHdr.destReadWrite, ⟨0, 0, 1⟩), (SMBusHdr.destSlaveAddr, ⟨0, 1, 7⟩),
-    (SMBusHdr.commandCode, ⟨1, 0, 8⟩), (SMBusHdr.byteCount, ⟨2, 0, 8⟩),
-    (SMBusHdr.sourceReadWrite, ⟨3, 0, 1⟩), (SMBusHdr.sourceSlaveAddr, ⟨3, 1, 7⟩),
-    (RoutingEntry.entryType, ⟨0, 0, 4⟩), (RoutingEntry.eidRangeSize, ⟨1, 0, 8⟩),
-    (RoutingEntry.firstEid, ⟨2, 0, 8⟩), (RoutingEntry.physicalAddress, ⟨3, 0, 8⟩),
-    (TransportHdr.rsvd, ⟨0, 4, 4⟩), (TransportHdr.hdrVersion, ⟨0, 0, 4⟩),
-    (TransportHdr.destEndpointId, ⟨1, 0, 8⟩), (TransportHdr.sourceEndpointId, ⟨2, 0, 8⟩),
-    (TransportHdr.som, ⟨3, 7, 1⟩), (TransportHdr.eom, ⟨3, 6, 1⟩), (TransportHdr.pktSeq, ⟨3, 4, 2⟩),
-    (TransportHdr.to, ⟨3, 3, 1⟩), (TransportHdr.msgTag, ⟨3, 0, 3⟩),
-    (BodyHdr.ic, ⟨0, 7, 1⟩), (BodyHdr.msgType, ⟨0, 0, 7⟩),
-    (CtrlHdr.rq, ⟨0, 7, 1⟩), (CtrlHdr.d, ⟨0, 6, 1⟩), (CtrlHdr.rsvd, ⟨0, 5, 1⟩),
-    (CtrlHdr.instanceId, ⟨0, 0, 5⟩), (CtrlHdr.commandCode, ⟨1, 0, 8⟩) ]
-
-def Layout.mask (l : Layout) : B := BitVec.ofNat 8 (2 ^ l.width - 1) <<< l.lo
-
 
 /-- everything about the table that is decided by evaluation: each field lives in the documented
 byte and its setter visits bit positions `lo, lo+1, …, lo+width-1` of that byte -/
